@@ -56,7 +56,8 @@ ROUTE_EVERY = 8
 def sp(seq):
     """SequenceParameters for `seq` from the tree under test.  In generated (non-exhaustive) parts one clean upper-case word in
     ROUTE_EVERY (a deterministic function of the word, so replays agree) is handed over through the constructor's other
-    argument, SeqObj=, as a backend Sequence built from the lower-case or mixed-case spelling of the same word: the result
+    argument, SeqObj=, as a backend Sequence built from the lower-case or mixed-case spelling of the same word (half of them with the
+    backend constructor's defaults dmax=-1, chargePattern=[] spelled out): the result
     must be the same object as far as every property is concerned."""
     SPc = env.SP()
     if ROUTE_ON and type(seq) is str and seq and _STD.issuperset(seq):
@@ -66,6 +67,10 @@ def sp(seq):
             from localcider.backend.sequence import Sequence
             text = seq.lower() if r % 2 == 0 else "".join(c.lower() if i % 2 else c for i, c in enumerate(seq))
             ROUTES["SeqObj=Sequence(lower-case text)" if r % 2 == 0 else "SeqObj=Sequence(mixed-case text)"] += 1
+            if (zlib.crc32(seq.encode()) >> 8) % 2:
+                # the backend constructor's own defaults spelled out by the caller (dmax=-1, chargePattern=[]): still the same object
+                ROUTES["SeqObj=Sequence(text, -1, []) defaults spelled out"] += 1
+                return SPc(SeqObj=Sequence(text, -1, []))
             return SPc(SeqObj=Sequence(text))
     ROUTES["string"] += 1
     return SPc(seq)
